@@ -11,6 +11,14 @@ impl Query for JpQuery {
 
 impl Query for Vec<Segment> {
     fn process<'a, T: Queryable>(&self, state: State<'a, T>) -> State<'a, T> {
+        #[cfg(jsonpath_rust_verif)]
+        if crate::verif::active() && !crate::verif::reenter(crate::verif::FRAME) {
+            crate::verif::frame_enter();
+            crate::verif::set_reenter(crate::verif::FRAME);
+            let out = self.process(state);
+            crate::verif::frame_exit();
+            return out;
+        }
         self.iter()
             .fold(state, |next, segment| segment.process(next))
     }
